@@ -340,8 +340,14 @@ func runC10(c *Ctx, i int, r *rand.Rand) {
 		var m0, m1 runtime.MemStats
 		c10MaxCap = 0
 		c10Handed = c10Handed[:0]
+		// a transcoder (and with it a buffer pool) of its own: a buffer that an earlier case left grown in a shared pool
+		// would otherwise be measured as if this request had filled it
+		tc, terr := buildTranscoder(&cc, true)
+		if terr != nil {
+			return nil, 0, 0
+		}
 		runtime.ReadMemStats(&m0)
-		e, err := runRPC(&cc, &cr, &sc, r, nil)
+		e, err := runRPC(&cc, &cr, &sc, r, &execOpts{Transcoder: tc})
 		runtime.ReadMemStats(&m1)
 		for k, b := range c10Handed {
 			if b.Cap() > c10MaxCap {
@@ -536,9 +542,13 @@ func c10DeclaredLength(c *Ctx, i int, r *rand.Rand, cfg *SvcConfig, creq *Client
 	}
 	cc := *cfg
 	cc.Limit = L
+	tc, terr := buildTranscoder(&cc, true)
+	if terr != nil {
+		return
+	}
 	c10MaxCap = 0
 	c10Handed = c10Handed[:0]
-	e, err := runRPC(&cc, creq, script, r, nil)
+	e, err := runRPC(&cc, creq, script, r, &execOpts{Transcoder: tc})
 	if err != nil {
 		return
 	}
